@@ -35,3 +35,18 @@ for name, note in NOTES.items():
         m['first_result_before_strengthening'] = note
         json.dump(m, open(p, 'w'), indent=1)
         print('annotated', name)
+
+import glob, re
+for p in glob.glob(os.path.join(HOME, 'seeded', '*', 'meta.json')):
+    m = json.load(open(p))
+    name = m['name']
+    mo = re.match(r'C\d+-[AB](\d?)b?-', name)
+    rnd = mo.group(1) if mo else ''
+    if rnd in ('2', '3'):
+        m['origin'] = ('round %s: independent sub-agent in its own scratch worktree, given the property text plus a PROSE description of the kind of generated workload '
+                       'it had to slip past (no file from /verif) - a deliberately stronger adversary than "property text only"' % rnd)
+    elif rnd == '4':
+        m['origin'] = 'round 4: independent sub-agent in its own scratch worktree, given four property texts only, asked for two cooperating edits or a multi-step call sequence'
+    else:
+        m['origin'] = 'round 1: independent sub-agent in its own scratch worktree, given only the text of the property'
+    json.dump(m, open(p, 'w'), indent=1)
